@@ -26,6 +26,11 @@ from props import PROPS  # per-property configuration
 import predicates
 import shrink as shrinker
 
+try:
+    import manifest_data as _md
+    MANIFEST_TEXT = {c['property_id']: c for c in _md.CHECKS}
+except Exception:
+    MANIFEST_TEXT = {}
 TZ_DEPENDENT = [' ' + n.encode().hex() + ' ' for n in ('date_to_rfc3339', 'date_to_rfc2822', 'date_from_rfc3339', 'date_from_rfc2822')]
 
 def log(*a):
@@ -107,17 +112,18 @@ def run_impl(binary, inp_path, exp_path, per_case_timeout=10.0, env=None):
     with open(exp_path, 'w') as f: f.write('\n'.join(answers) + ('\n' if answers else ''))
     return lines, answers, crashes
 
-def run_model(inp_path, out_path):
+def run_model(inp_path, out_path, tz=None):
     """run the Lean driver over the input, split over up to 16 driver processes (the driver is single-threaded)"""
     from concurrent.futures import ThreadPoolExecutor
     lines = open(inp_path).read().split('\n')
     if lines and lines[-1] == '': lines.pop()
+    menv = dict(ENV, SLAC_MODEL_TZ=tz) if tz else ENV      # the model's local zone = the zone the crate runs under
     k = max(1, min(16, len(lines) // 4000, os.cpu_count() or 1)) if len(lines) >= 8000 or any(l.startswith(('tmrange', 'scanrange')) for l in lines[:3]) else 1
     if any(l.startswith(('tmrange', 'scanrange')) for l in lines[:3]): k = max(1, min(16, len(lines)))
     # interleave so that expensive lines are spread evenly
     parts = [lines[i::k] for i in range(k)]
     def work(i):
-        p = subprocess.run([DRIVER], input=('\n'.join(parts[i]) + '\n').encode(), stdout=subprocess.PIPE, stderr=subprocess.PIPE, env=ENV, timeout=14400)
+        p = subprocess.run([DRIVER], input=('\n'.join(parts[i]) + '\n').encode(), stdout=subprocess.PIPE, stderr=subprocess.PIPE, env=menv, timeout=14400)
         o = p.stdout.decode(errors='replace').split('\n')
         if o and o[-1] == '': o.pop()
         return o, p.returncode
@@ -297,7 +303,7 @@ def main():
         rlines = rp.get('lines', [])
         p = os.path.join(workdir, 'replay.in'); open(p, 'w').write('\n'.join(rlines) + '\n')
         stream_list = [dict(name=rp.get('stream', 'replay'), file=p, build=rp.get('build', 'default'), view=rp.get('view', cfg['streams'][0].get('view', 'full')),
-                            oracle=rp.get('oracle', cfg['streams'][0].get('oracle', 'spec')), laws=rp.get('laws', []), model=rp.get('model', True))]
+                            oracle=rp.get('oracle', cfg['streams'][0].get('oracle', 'spec')), laws=rp.get('laws', []), model=rp.get('model', True), **({'tz': rp['tz']} if rp.get('tz') else {}))]
     for st in stream_list:
         name = st['name']; build = st.get('build', 'default')
         if build not in bins or not os.path.exists(DRIVER): continue
@@ -335,8 +341,19 @@ def main():
                 if a != b and not a.startswith('ok impure'):
                     problems.append(('impl-violation', f'stream {name}: the same call answered `{a[:150]}` in one process and `{b[:150]}` in another',
                                      dict(stream=name, build=build, lines=[line], expected=a, actual=b, view='full', oracle='none')))
+        if st.get('tz') and st.get('tz_invariant'):
+            # falsifier on the crate alone: only the four RFC builtins may consult the host's zone; every other answer must be the
+            # one given under UTC
+            _, exp_utc, _ = run_impl(bins[build], inp, os.path.join(workdir, f'{name}-{build}.utc.exp'), st.get('case_timeout', 10.0), env=ENV)
+            for k, line in enumerate(lines):
+                if any(h in line for h in TZ_DEPENDENT): continue
+                a = exp[k] if k < len(exp) else 'missing'; b = exp_utc[k] if k < len(exp_utc) else 'missing'
+                falsifier_cases += 1
+                if a != b and not a.startswith('ok impure'):
+                    problems.append(('impl-violation', f'stream {name}: the answer `{a[:150]}` under TZ={st["tz"]} differs from `{b[:150]}` under UTC although the builtin does not involve the local zone',
+                                     dict(stream=name, build=build, lines=[line], expected=b, actual=a, view='full', oracle='none', tz=st['tz'])))
         if st.get('model', True):
-            out, rc = run_model(inp, os.path.join(workdir, f'{name}-{build}.out'))
+            out, rc = run_model(inp, os.path.join(workdir, f'{name}-{build}.out'), tz=st.get('tz'))
         else:
             out, rc = None, 0
         view = predicates.VIEWS[st.get('view', 'full')]
@@ -351,8 +368,6 @@ def main():
             m = parts[0]; s = parts[1] if len(parts) > 1 else None
             cls = predicates.classify(name, line, e)
             dist[cls] = dist.get(cls, 0) + 1
-            # the model of date_to_rfc3339/2822 is stated for a UTC local zone; under another TZ those two are outside the model
-            if st.get('tz') and any(h in line for h in TZ_DEPENDENT): m = 'unmodelled local-time-zone'
             if m.startswith('unmodelled'): skipped += 1; continue
             if predicates.nontrivial(name, line, e): nontrivial.add(hashlib.md5(line.encode()).digest()[:8])
             if view(e) != view(m): dis_model.append((k, line, e, m))
@@ -397,7 +412,7 @@ def main():
                 except Exception as ex:
                     minimal = None
             problems.append(('impl-violation', f'stream {name}: implementation answers `{e[:200]}`, the property prescribes `{str(s)[:200]}`',
-                             dict(stream=name, build=build, lines=[minimal or line], original_line=line if minimal else None, expected=s, actual=e,
+                             dict(stream=name, build=build, tz=st.get('tz'), lines=[minimal or line], original_line=line if minimal else None, expected=s, actual=e,
                                   view=st.get('view', 'full'), oracle=oracle, laws=st.get('laws', []), model=st.get('model', True))))
         spec_lines = {k for (k, _, _, _) in dis_spec}
         expanded = False
@@ -409,7 +424,7 @@ def main():
                 f = expand_case(st, bins[build], line, workdir)
                 if f: (line, e, m), sname, sview = f, st.get('expand_stream', 'scan'), 'full'
             problems.append(('model-mismatch', f'stream {sname}: model `{m[:200]}` vs implementation `{e[:200]}`',
-                             dict(stream=sname, build=build, lines=[line], expected=m, actual=e, view=sview, oracle=oracle)))
+                             dict(stream=sname, build=build, tz=st.get('tz'), lines=[line], expected=m, actual=e, view=sview, oracle=oracle)))
         if rc != 0:
             problems.append(('infra', f'driver exited with {rc} on stream {name}', ''))
 
@@ -473,10 +488,10 @@ def main():
             known_findings_hit=sorted(known_hit.keys()),
             exhaustive=False,
             exhaustive_streams=sorted(k for k, v in streams_ev.items() if v.get('exhaustive')),
-            explanation=cfg.get('explanation', ''),
+            explanation=cfg.get('explanation', '') or MANIFEST_TEXT.get(pid, {}).get('text', ''),
             **({'source_translation': translation} if translation is not None else {}),
         ),
-        assumptions=cfg.get('assumptions', []),
+        assumptions=cfg.get('assumptions', []) or [x for x in [MANIFEST_TEXT.get(pid, {}).get('note', '')] + cfg.get('trusted', []) if x],
         wall_s=round(time.time() - t0, 1),
         violations=violations,
     )
